@@ -60,7 +60,8 @@ def run(pid):
     mine = {}
     for t, items in by.items():
         own = [x for x in items if x["rule"] in ("dead-primary-file-not-released", "dead-index-file-not-released", "low-use-file-not-drained",
-                                                   "gc-increased-storage", "no-fixed-point", "process-crash-or-hang")]
+                                                   "gc-increased-storage", "no-fixed-point", "process-crash-or-hang",
+                                                   "emptied-oldest-primary-file-not-unlinked", "emptied-oldest-index-file-not-unlinked")]
         if own:
             mine[t] = own
     report_bad(rep, scens, mine)
